@@ -431,6 +431,40 @@ MUTANTS = [
     ("c18_revert_F3", ["C18"], LD,
      "            if eval(addr) in self.sensitive_hosts:\n                sh_value = self.sensitive_hosts[eval(addr)]",
      "            if addr in self.sensitive_hosts:\n                sh_value = self.sensitive_hosts[addr]"),
+    # ---------------- C19
+    ("c19_class_level_initial_tensor_cache", ["C19"], ST,
+     "    def generate_initial_state(cls, network):\n        cls.reset()\n        state = cls.tensorize(network)\n        return network.reset(state)",
+     "    def generate_initial_state(cls, network):\n        cls.reset()\n        if getattr(cls, '_cache', None) is not None and cls._cache.tensor.shape == cls.tensorize(network).tensor.shape:\n            return network.reset(cls._cache)\n        state = cls.tensorize(network)\n        cls._cache = state\n        return network.reset(state)"),
+    ("c19_network_hosts_class_attribute", ["C19"], NW,
+     "    def __init__(self, scenario):\n        self.hosts = scenario.hosts",
+     "    def __init__(self, scenario):\n        Network.hosts = scenario.hosts"),
+    ("c19_module_level_current_network", ["C19"], NW,
+     [("    def host_traffic_permitted(self, src_addr, dest_addr, service):\n        dest_host = self.hosts[dest_addr]",
+       "    def host_traffic_permitted(self, src_addr, dest_addr, service):\n        dest_host = _LAST[0].hosts.get(dest_addr, self.hosts[dest_addr])"),
+      ("    def __init__(self, scenario):\n        self.hosts = scenario.hosts",
+       "    def __init__(self, scenario):\n        _LAST[0] = self\n        self.hosts = scenario.hosts"),
+      ("INTERNET = 0\n", "INTERNET = 0\n_LAST = [None]\n")], None),
+    ("c19_shared_step_counter", ["C19", "C06"], EN,
+     "        self.steps += 1\n",
+     "        NASimEnv._steps_total = getattr(NASimEnv, '_steps_total', 0) + 1\n        self.steps = NASimEnv._steps_total\n"),
+    ("c19_firewall_shared_between_instances", ["C19"], NW,
+     "        self.firewall = scenario.firewall\n",
+     "        Network.firewall = scenario.firewall\n"),
+    # ---------------- C20
+    ("c20_revert_F9_path_sum", ["C20"], UT,
+     "    return int(min(tree[-1].min(), max_value))",
+     "    shortest = max_value\n    for pm in permutations(subnets_to_visit):\n        pm_sum = 0\n        for i in range(len(pm) - 1):\n            pm_sum += distance[pm[i]][pm[i+1]]\n        shortest = min(shortest, pm_sum)\n    return shortest"),
+    ("c20_bound_without_discovery_total", ["C20"], EN,
+     "        max_reward += self.network.get_total_discovery_value()\n", ""),
+    ("c20_max_instead_of_sum_of_sensitive", ["C20"], NW,
+     "        for host_value in self.sensitive_hosts.values():\n            total += host_value\n        return total",
+     "        for host_value in self.sensitive_hosts.values():\n            total = max(total, host_value)\n        return total"),
+    ("c20_hops_plus_one", ["C20"], EN,
+     "        max_reward -= self.network.get_minimal_hops()",
+     "        max_reward -= self.network.get_minimal_hops() + 1"),
+    ("c20_steiner_merge_skipped", ["C20"], UT,
+     "        tree[visit_set] = (tree[visit_set][:, None] + dist).min(axis=0)",
+     "        if bin(visit_set).count('1') < 3:\n            tree[visit_set] = (tree[visit_set][:, None] + dist).min(axis=0)"),
 ]
 
 
